@@ -65,6 +65,14 @@ NestedStringTokenizer::NestedStringTokenizer(const std::string& s, const std::st
   }
   else
   {
+    if (delimiters.empty())
+    {
+      // No delimiter: the whole string is one token, provided blocks are closed.
+      if (TextTools::count(s, open) != TextTools::count(s, end))
+        throw Exception("NestedStringTokenizer (constructor). Unclosed block.");
+      tokens_.push_back(s);
+      return;
+    }
     string::size_type index = 0;
     while (index != s.npos)
     {
